@@ -779,3 +779,211 @@ def _whole_def_expr(self, l):
 
 
 Body.whole_def_expr = _whole_def_expr
+
+
+# ---------------------------------------------------------------- phi-expanded expressions (A10 normal forms)
+def _pexpr_local(self, l, depth=0, seen=frozenset()):
+    """like expr_local, but a local with several whole definitions becomes ('phi', (alternatives...)) instead of a name"""
+    cache = self.__dict__.setdefault('_pexpr_cache', {})
+    if not seen and l in cache:
+        return cache[l]
+    if l in seen or depth > 30:
+        return ('local', l, self.local_name(l), _ty_short(self.locals[l]))
+    if self.kind == 'Closure' and l == 1:
+        return ('env',)
+    if l != 0 and l <= self.argc:
+        return ('param', self.local_name(l) or ('arg%d' % l))
+    ds = self.defs.get(l, [])
+    whole = [x for x in ds if x[2]]
+    partial = [x for x in ds if not x[2]]
+    seen2 = seen | {l}
+    if not whole or len(whole) > 4 or (partial and self.local_name(l) is not None):
+        e = ('local', l, self.local_name(l), _ty_short(self.locals[l]))
+    else:
+        alts = []
+        for (b, i, _) in whole:
+            if i == 't':
+                t = self.term(b)
+                if t['t'] == 'call':
+                    alts.append(self._pexpr_call(b, t, depth + 1, seen2))
+                else:
+                    alts.append(('resume', b))
+            else:
+                alts.append(self._pexpr_rvalue(self.stmts(b)[i]['rv'], depth + 1, seen2))
+        if len(alts) == 1 and not partial:
+            e = alts[0]
+        elif len(alts) == 1:
+            e = ('upd', alts[0])   # aggregate later modified field-wise
+        else:
+            uniq = []
+            for a in alts:
+                if a not in uniq:
+                    uniq.append(a)
+            e = uniq[0] if len(uniq) == 1 else ('phi', tuple(sorted(uniq, key=lambda x: render(x))))
+    if not seen:
+        cache[l] = e
+    return e
+
+
+def _pexpr_operand(self, op, depth=0, seen=frozenset()):
+    if 'k' in op:
+        if 'item' in op:
+            return ('constitem', op['item'], op.get('ty', ''))
+        return ('const', op['k'], op.get('ty', ''))
+    if 'fn' in op:
+        return ('fnitem', op['fn'])
+    return self._pexpr_place(op_place(op), depth, seen)
+
+
+def _pexpr_place(self, place, depth=0, seen=frozenset()):
+    base = self._pexpr_local(place[0], depth, seen)
+    for pr in place[1:]:
+        if base[0] == 'phi':
+            base = ('phi', tuple(self._project(a, pr) for a in base[1]))
+        elif base[0] == 'upd':
+            base = self._project(base[1], pr)
+        else:
+            base = self._project(base, pr)
+    return base
+
+
+def _pexpr_call(self, b, t, depth, seen):
+    save = (self.expr_operand,)
+    name = t.get('res') or t.get('fn') or '<indirect>'
+    args = tuple(self._pexpr_operand(a, depth, seen) for a in t.get('args', []))
+    decl = t.get('fn') or ''
+    if (decl in TRANSPARENT_CALLS or name in TRANSPARENT_CALLS) and len(args) == 1:
+        return args[0]
+    if decl.endswith('Future::poll'):
+        return ('poll', args[0] if args else None, b)
+    if decl == 'std::ops::Try::branch':
+        return ('branch', args[0], b)
+    if decl == 'std::future::get_context':
+        return ('ctx',)
+    return ('call', name, args, b)
+
+
+def _pexpr_rvalue(self, rv, depth, seen):
+    # reuse _expr_rvalue with operand/place hooks swapped
+    r = rv['r']
+    O = lambda o: self._pexpr_operand(o, depth, seen)
+    Pl = lambda p: self._pexpr_place(p, depth, seen)
+    if r in ('use', 'repeat', 'cast'):
+        return O(rv['a'])
+    if r in ('ref', 'rawptr'):
+        return Pl(rv['p'])
+    if r == 'bin':
+        op = rv['op'].replace('WithOverflow', '').replace('Unchecked', '')
+        return ('bin', op, O(rv['a']), O(rv['b']))
+    if r == 'un':
+        if rv['op'] == 'PtrMetadata':
+            return ('len', O(rv['a']))
+        return ('un', rv['op'], O(rv['a']))
+    if r == 'discr':
+        return ('discr', Pl(rv['p']))
+    if r == 'agg':
+        ops = tuple(O(o) for o in rv['ops'])
+        k = rv['kind']
+        if k == 'adt':
+            return ('agg', rv['adt'], rv['variant'], tuple(zip(rv.get('names', []), ops)))
+        if k == 'tuple':
+            return ('tuple', ops)
+        if k in ('closure', 'coroutine', 'coroutine_closure'):
+            return ('closure', rv['def'], tuple(zip(rv.get('names', []), ops)))
+        return ('array', ops)
+    return ('opaque', r)
+
+
+Body.pexpr_local = _pexpr_local
+Body._pexpr_local = _pexpr_local
+Body.pexpr_operand = _pexpr_operand
+Body._pexpr_operand = _pexpr_operand
+Body.pexpr_place = _pexpr_place
+Body._pexpr_place = _pexpr_place
+Body._pexpr_call = _pexpr_call
+Body._pexpr_rvalue = _pexpr_rvalue
+EXPR_HEADS.update({'phi', 'upd'})
+
+def _ty_short(ty):
+    t = re.sub(r"^(&(?:'\S+ )?(?:mut )?)+", '', ty)
+    t = re.sub(r'<.*$', '', t)
+    return t.split('::')[-1]
+
+
+COMMUTATIVE = {'Add', 'Mul', 'BitOr', 'BitAnd', 'BitXor', 'Eq', 'Ne'}
+FLIP = {'Gt': 'Lt', 'Lt': 'Gt', 'Ge': 'Le', 'Le': 'Ge'}
+
+
+def canon(e, depth=0):
+    """canonical, name-free normal form of an expression (A10): casts/refs/await/? transparent, commutative
+    operands sorted, comparisons oriented (`a > b` printed as `b < a`), locals only when loop-carried"""
+    if not isinstance(e, tuple) or not e:
+        return str(e)
+    if depth > 14:
+        return '…'
+    k = e[0]
+    d = depth + 1
+    if k == 'const':
+        return e[1]
+    if k == 'constitem':
+        return e[1].split('::')[-1]
+    if k in ('param', 'upvar'):
+        return e[1]
+    if k == 'local':
+        if len(e) > 3 and e[3]:
+            return '$' + e[3]
+        return '$' + (e[2] or str(e[1]))
+    if k == 'env':
+        return 'env'
+    if k == 'field':
+        return '%s.%s' % (canon(e[1], d), e[2])
+    if k == 'variant':
+        return canon(e[1], d) if e[2] in ('Some', 'Ok', 'Ready', 'Continue') else '(%s as %s)' % (canon(e[1], d), e[2])
+    if k == 'index':
+        return '%s[%s]' % (canon(e[1], d), canon(e[2], d))
+    if k == 'call':
+        last = e[1].split('::')[-1]
+        if is_result_adaptor(e[1]) and e[2]:
+            return canon(e[2][0], d)
+        if last in ('unwrap', 'expect', 'unwrap_or_default') and e[2]:
+            return canon(e[2][0], d)
+        if last in ('from', 'into', 'try_into', 'as_bytes_u64', 'as_bytes_usize') and len(e[2]) == 1:
+            return canon(e[2][0], d)
+        return '%s(%s)' % (short(e[1]), ', '.join(canon(a, d) for a in e[2]))
+    if k in ('await', 'try'):
+        return canon(e[1], d)
+    if k in ('poll', 'branch'):
+        return canon(e[1], d) if e[1] is not None else k
+    if k == 'bin':
+        a, b = canon(e[2], d), canon(e[3], d)
+        op = e[1]
+        if op in COMMUTATIVE and b < a:
+            a, b = b, a
+        if op in ('Gt', 'Ge'):
+            a, b, op = b, a, FLIP[op]
+        sym = {'Add': '+', 'Sub': '-', 'Mul': '*', 'Div': '/', 'Rem': '%', 'Lt': '<', 'Le': '<=', 'Eq': '==', 'Ne': '!=',
+               'BitOr': '|', 'BitAnd': '&', 'BitXor': '^', 'Shl': '<<', 'Shr': '>>'}.get(op, op)
+        return '(%s %s %s)' % (a, sym, b)
+    if k == 'un':
+        return '%s(%s)' % ('!' if e[1] == 'Not' else e[1], canon(e[2], d))
+    if k == 'agg':
+        if e[1] in ('std::option::Option', 'std::result::Result') and e[2] in ('Some', 'Ok') and e[3]:
+            return canon(e[3][0][1], d)
+        return '%s::%s{%s}' % (e[1].split('::')[-1], e[2], ', '.join('%s: %s' % (n, canon(x, d)) for n, x in e[3]))
+    if k in ('tuple', 'array'):
+        return '(%s)' % ', '.join(canon(x, d) for x in e[1])
+    if k == 'closure':
+        return 'closure'
+    if k == 'discr':
+        return 'discr(%s)' % canon(e[1], d)
+    if k == 'len':
+        return 'len(%s)' % canon(e[1], d)
+    if k == 'fnitem':
+        return short(e[1])
+    if k == 'overflow':
+        return 'overflow'
+    if k == 'phi':
+        return 'phi{%s}' % ' | '.join(sorted(canon(x, d) for x in e[1]))
+    if k == 'upd':
+        return canon(e[1], d)
+    return k
